@@ -449,8 +449,26 @@ func VHLongInputs() {
 		idx[i] = i
 	}
 	pos := 0
+	// the stack depth at which the callbacks run must not grow with the input length (a
+	// recursion per element is right on short inputs and exhausts the stack on long ones)
+	dlo, dhi, dn := 0, 0, 0
+	depth := func() {
+		d := vDepth()
+		if dn == 0 || d < dlo {
+			dlo = d
+		}
+		if dn == 0 || d > dhi {
+			dhi = d
+		}
+		dn++
+	}
+	spread := func(what string) {
+		vAssert(dhi-dlo <= 8, what+": the call depth at the callback does not grow with the input length")
+		dn = 0
+	}
 	// Filter with a position-based predicate (the callback sees elements in order)
-	f := Filter(s, func(int) bool { pos++; return (pos-1)%mod == 0 })
+	f := Filter(s, func(int) bool { depth(); pos++; return (pos-1)%mod == 0 })
+	spread("Filter")
 	k := 0
 	for i := 0; i < n; i++ {
 		if i%mod == 0 {
@@ -459,12 +477,22 @@ func VHLongInputs() {
 		}
 	}
 	vAssert(len(f) == k, "Filter (long input): only matching elements")
-	m := Map(s, func(v int) int { return vUF1("conv", v) })
+	m := Map(s, func(v int) int { depth(); return vUF1("conv", v) })
+	spread("Map")
 	vAssert(len(m) == n, "Map (long input): same length")
 	for i := range m {
 		vAssert(m[i] == vUF1("conv", snap[i]), "Map (long input): element-wise")
 	}
-	acc := Fold(s, 0, func(st, v int) int { return vUF2("acc", st, v) })
+	acc := Fold(s, 0, func(st, v int) int { depth(); return vUF2("acc", st, v) })
+	spread("Fold")
+	FoldReverse(s, 0, func(st, v int) int { depth(); return st })
+	spread("FoldReverse")
+	All(s, func(int) bool { depth(); return true })
+	spread("All")
+	Any(s, func(int) bool { depth(); return false })
+	spread("Any")
+	IndexFunc(s, func(int) bool { depth(); return false })
+	spread("IndexFunc")
 	exp := 0
 	for i := 0; i < n; i++ {
 		exp = vUF2("acc", exp, snap[i])
